@@ -331,6 +331,11 @@ class Outcome:
                     self.known_hits.append(msg)
                     log(msg)
                 return False
+        if getattr(self, "dry", False):
+            # replay mode: report through the caller, never rewrite the replay file being replayed
+            self.violations.append((what, None))
+            log(f"  replay: {what[:300]}")
+            return True
         ensure_dirs()
         n = len(self.violations) + 1
         path = os.path.join(REPLAYS, f"{self.pid}-{n}.json")
